@@ -131,3 +131,103 @@ Proof.
   - intros _. auto.
   - intros l1 E. discriminate.
 Qed.
+
+(** * Anchored in the trace: the sockets the router took are exactly the ones sent on its channel *)
+
+(** every socket sent on the registration channel in a trace is one the router took *)
+Definition queued_in (tr : list rev) (l : N) : Prop := exists q w, In (VQueue q w) tr /\ rlabel_of q = l.
+
+Lemma rinternal_used s s' : rinternal s = Some s' -> h_used (rgh s') = h_used (rgh s).
+Proof. intros H. unfold rinternal in H. crush_matches H; injection H as <-; rsimp; reflexivity. Qed.
+
+Lemma sink_ev_not_queue l op e r : is_sink_ev_on l op e = Some r -> forall q w, e <> VQueue q w.
+Proof. intros H q w ->. discriminate. Qed.
+
+Lemma rstep_raw_used s e s' : rstep_raw s e = Some s' ->
+  (h_used (rgh s') = h_used (rgh s) /\ forall q w, e <> VQueue q w)
+  \/ (exists q w, e = VQueue q w /\ h_used (rgh s') = rlabel_of q :: h_used (rgh s)).
+Proof.
+  intros H. unfold rstep_raw, router_pass in H.
+  crush_matches H; injection H as <-; rsimp;
+    first [ solve [left; split; [reflexivity|intros; discriminate]]
+          | solve [left; split; [reflexivity|eauto using sink_ev_not_queue]]
+          | solve [right; eexists; eexists; split; reflexivity] ].
+Qed.
+
+Definition UInv (tr : list rev) (s : rst) : Prop := forall l, queued_in tr l <-> In l (h_used (rgh s)).
+
+Lemma uinv_settle fuel : forall tr s s', UInv tr s -> rsettle fuel s = Some s' -> UInv tr s'.
+Proof.
+  induction fuel as [|k IH]; intros tr s s' HI H; cbn [rsettle] in H; [discriminate|].
+  destruct (rinternal s) as [s1|] eqn:E.
+  - apply (IH tr s1); [|exact H]. intros l. rewrite (rinternal_used _ _ E). apply HI.
+  - now injection H as <-.
+Qed.
+
+Lemma queued_in_snoc tr e l : queued_in (tr ++ [e]) l <-> queued_in tr l \/ (exists q w, e = VQueue q w /\ rlabel_of q = l).
+Proof.
+  unfold queued_in. split.
+  - intros (q & w & Hin & Hl). apply in_app_or in Hin as [Hin|[E|[]]].
+    + left. eauto.
+    + right. exists q, w. split; [now symmetry|exact Hl].
+  - intros [(q & w & Hin & Hl)|(q & w & -> & Hl)].
+    + exists q, w. split; [apply in_or_app; now left|exact Hl].
+    + exists q, w. split; [apply in_or_app; right; now left|exact Hl].
+Qed.
+
+Lemma uinv_raw tr s e s' : UInv tr s -> rstep_raw s e = Some s' -> UInv (tr ++ [e]) s'.
+Proof.
+  intros HI H l. rewrite queued_in_snoc.
+  destruct (rstep_raw_used _ _ _ H) as [[Hu Hne]|(q & w & -> & Hu)]; rewrite Hu.
+  - rewrite <- (HI l). split; [intros [Hq|(q & w & -> & _)]; [exact Hq|now destruct (Hne q w)]|now left].
+  - cbn [In]. rewrite <- (HI l). split.
+    + intros [Hq|(q0 & w0 & E & Hl)]; [now right|left]. injection E as <- <-. exact Hl.
+    + intros [Hl|Hq]; [right; eauto|now left].
+Qed.
+
+Lemma uinv_same_raw tr s e s1 : rctl s = RStreamsStart -> rstep_raw s e = Some s1 -> UInv tr s -> UInv tr s1.
+Proof.
+  intros Hc H HI. unfold rstep_raw in H. rewrite Hc in H.
+  destruct e; try discriminate. destruct (index_of_label l (rstreams s)); [|discriminate].
+  injection H as <-. intros l0. rsimp. apply HI.
+Qed.
+
+Lemma uinv_step tr s e s' : UInv tr s -> rstep s e = Some s' -> UInv (tr ++ [e]) s'.
+Proof.
+  intros HI H. unfold rstep, obind in H.
+  destruct (rsettled s) as [s0|] eqn:E0; [|discriminate].
+  assert (H0 : UInv tr s0) by (unfold rsettled in E0; now apply uinv_settle with (rsettle_fuel s) s).
+  assert (Hone : forall a, UInv tr a -> match rstep_raw a e with Some x => rsettled x | None => None end = Some s' -> UInv (tr ++ [e]) s').
+  { intros a Ha Hb. destruct (rstep_raw a e) as [x|] eqn:Ex; [|discriminate].
+    unfold rsettled in Hb. apply uinv_settle with (rsettle_fuel x) x; [|exact Hb].
+    now apply uinv_raw with a. }
+  destruct (rctl s0) eqn:Ec; try (now apply (Hone s0)).
+  destruct e; try (now apply (Hone s0)).
+  match type of H with match ?t with _ => _ end = _ => destruct t as [s1|] eqn:E1; [|discriminate] end.
+  apply (Hone s1); [|exact H].
+  now apply uinv_same_raw with s0 (VStream l r).
+Qed.
+
+Lemma uinv_run tr : forall tr0 s s', UInv tr0 s -> rrun s tr = Some s' -> UInv (tr0 ++ tr) s'.
+Proof.
+  induction tr as [|e tr IH]; intros tr0 s s' HI H; cbn [rrun] in H.
+  - injection H as <-. now rewrite app_nil_r.
+  - destruct (rstep s e) as [s1|] eqn:E; [|discriminate].
+    replace (tr0 ++ e :: tr) with ((tr0 ++ [e]) ++ tr) by (rewrite <- app_assoc; reflexivity).
+    apply (IH (tr0 ++ [e]) s1); [now apply uinv_step with s|exact H].
+Qed.
+
+Theorem rr_used_is_queued tr s : rrun rinit tr = Some s ->
+  forall l, queued_in tr l <-> In l (h_used (rgh s)).
+Proof.
+  intros H. apply (uinv_run tr [] rinit s); [|exact H].
+  intros l. cbn. split; [intros (q & w & [] & _)|intros []].
+Qed.
+
+(** trace-anchored form of rr_no_registration_lost *)
+Theorem rr_every_queued_socket_placed tr s : rrun rinit tr = Some s ->
+  forall q w, In (VQueue q w) tr -> placed s (rlabel_of q).
+Proof.
+  intros H q w Hin. apply (rr_no_registration_lost tr s H).
+  apply (rr_used_is_queued tr s H). exists q, w. auto.
+Qed.
